@@ -73,7 +73,42 @@ def run(chk, prog):
         s = scans[nm]
         seq = local_seq(s, var)
         site = fn.where
-        A.require(len(seq) == 3 and [a.op for a in seq] == ["=", "+=", "*="], "PhaseSpace::%s: accumulator is not `= 0; += term; *= factor` (%s)" % (nm, [a.op for a in seq]))
+        if not (len(seq) == 3 and [a.op for a in seq] == ["=", "+=", "*="]):
+            # another way of accumulating (one-pass <q^2> - <q>^2, factor applied inside the sum, ...): judged by its closed form.  Sums over
+            # the axis are written in the raw moments S_k = sum_i P[i] q_i^k; the reported mean is m = w*S_1 with w = delta/filling (rule
+            # above for average()), and w*S_0 = 1 is assumed (the filling is the integral of the projection).
+            A.require(seq and seq[0].op == "=" and all(a.value is not None for a in seq), "PhaseSpace::%s: accumulator not translatable" % nm)
+            depth0 = len(seq[0].loops)
+            nsym = seq[0].loops[0].sym if seq[0].loops else sp.Symbol("n", integer=True)
+            Ssym = [sp.Symbol("S%d" % k_, real=True) for k_ in range(4)]
+            w_ = G.DELTA(axis) / sp.IndexedBase("_filling")[nsym]
+            mean = sp.IndexedBase("_moment")[axis, 0, nsym]
+            cur = None
+            for a in seq:
+                v_ = a.value
+                if len(a.loops) > depth0:
+                    isym = a.loops[-1].sym
+                    P_ = sp.IndexedBase("_projection")[axis, nsym, isym]
+                    q_ = G.QP(axis, isym)
+                    qq = sp.Symbol("q__", real=True)
+                    poly = sp.expand(sp.expand(v_).subs(q_, qq))
+                    coeff_P = sp.expand(poly.coeff(P_, 1))
+                    A.require(sp.expand(poly - coeff_P * P_) == 0 and isym not in coeff_P.free_symbols, "PhaseSpace::%s: summand is not P[i] times a polynomial in q_i (%s)" % (nm, v_))
+                    pc = sp.Poly(coeff_P, qq)
+                    A.require(pc.degree() <= 3, "PhaseSpace::%s: summand of degree > 3 in q" % nm)
+                    v_ = sum(c_ * Ssym[k_[0]] for k_, c_ in pc.terms())
+                    A.require(a.op in ("+=", "-="), "PhaseSpace::%s: `%s` inside the sum over the axis" % (nm, a.op))
+                cur = v_ if a.op == "=" else {"+=": cur + v_, "-=": cur - v_, "*=": cur * v_, "/=": cur / v_}[a.op]
+            want_c = w_ * Ssym[1] if not with_mean else w_ * (Ssym[2] - 2 * mean * Ssym[1] + mean ** 2 * Ssym[0])
+            subst = {Ssym[1]: mean / w_, Ssym[0]: 1 / w_} if with_mean else {}
+            diff_ = sp.simplify((cur - want_c).subs(subst))
+            chk.assume("delta/filling * sum_i P[i] == 1 (the filling is the integral of the projection) when a moment is accumulated in one pass")
+            chk.check(diff_ == 0, "R2", site, "%s: the accumulated value equals %s in closed form (difference %s)"
+                      % (nm, "w*sum P q" if not with_mean else "w*sum P (q-mean)^2", diff_), "%s:closed-form:%s" % (nm, diff_))
+            st = [a for a in s.accesses if a.kind == "store" and a.base == target[0] and a.idx is not None and a.idx[1] == target[1]]
+            chk.check(len(st) == 1 and str(st[0].value) == var, "R2", A.loc(fn, {"line": st[0].line if st else fn["line"]}),
+                      "%s: result stored as moment %d of (axis, bunch n)" % (nm, target[1]), "%s:store" % nm)
+            continue
         z, acc, fac = seq
         nsym = acc.loops[0].sym
         isym = acc.loops[-1].sym
